@@ -380,10 +380,15 @@ class Interp(object):
             for pattern, fn in self.effects:
                 env = pm.match(pattern, cand)
                 if env is not None:
+                    saved = (dict(state.get('senv', {})), dict(state.get('bvars', {})))
+                    self._kill_targets(st, state)      # what the statement binds is re-bound by the effect (or unknown)
                     r = fn(env, state, trace)
                     if r is not False:
-                        self._kill_targets(st, state)
                         return True
+                    if 'senv' in state or saved[0]:
+                        state['senv'] = saved[0]
+                    if 'bvars' in state or saved[1]:
+                        state['bvars'] = saved[1]
         for pattern in self.ignore:
             if pm.match(pattern, st) is not None:
                 return True
